@@ -5,6 +5,7 @@ and __exit__ of every context (normal and exceptional exit) and compares with a 
 programs of nested contexts with exceptions raised at every level, direct assignments and helper probes."""
 from __future__ import annotations
 
+import contextlib
 import itertools
 import logging
 
@@ -19,12 +20,13 @@ ATTR = {k: ("_factory_manager" if k == "factory_manager" else k) for k in KEYS}
 
 
 def same(a, b):
+    """identical object, or an equal number/string of the same type (objects such as loggers and factory managers are
+    restored only when the very same object is back: their own notion of equality does not count)"""
     if a is b:
         return True
-    try:
-        return type(a) is type(b) and bool(a == b) and not isinstance(a, (logging.Logger,))
-    except Exception:
-        return False
+    if type(a) is type(b) and isinstance(a, (bool, int, float, str, np.number)):
+        return bool(a == b)
+    return False
 
 
 def show(v):
@@ -57,9 +59,14 @@ class SettingsMonitor:
         original = Settings.__dict__["context"]
         mon = self
 
-        class Observed:
+        class Observed(contextlib.ContextDecorator):
             def __init__(self, cm, settings, named):
                 self.cm, self.s, self.named = cm, settings, named
+
+            def _recreate_cm(self):
+                # used as a decorator: a fresh context per call, like contextlib's own generator context managers
+                mon.ctx.hit("event:context used as a decorator")
+                return Observed(self.cm._recreate_cm(), self.s, self.named)
 
             def __enter__(self):
                 ctx = mon.ctx
@@ -144,7 +151,13 @@ def gen_program(fl, rnd, depth, max_depth, keysets=None):
         if c < 0.45 and depth < max_depth:
             ks = rnd.sample(KEYS, rnd.choice([1, 1, 2, 2, 3, 7])) if keysets is None else list(rnd.choice(keysets))
             kwargs = {k: values(fl, rnd, k, rnd.random() < 0.5) for k in ks}
-            steps.append(("ctx", kwargs, gen_program(fl, rnd, depth + 1, max_depth, keysets), rnd.random() < 0.35))
+            opt = {}
+            if rnd.random() < 0.4:
+                # the context object is created first, settings change, and only then is it entered (as a `with` target,
+                # through an ExitStack, or as a decorator around the body)
+                opt["mode"] = rnd.choice(["prepared", "exitstack", "decorator", "decorator-twice"])
+                opt["pre"] = [(k, values(fl, rnd, k, True)) for k in rnd.sample(ks + KEYS, rnd.randrange(0, 3))]
+            steps.append(("ctx", kwargs, gen_program(fl, rnd, depth + 1, max_depth, keysets), rnd.random() < 0.35, opt))
         elif c < 0.65:
             k = rnd.choice(KEYS)
             steps.append(("assign", k, values(fl, rnd, k, True)))
@@ -160,6 +173,9 @@ def describe(prog):
     for st in prog:
         if st[0] == "ctx":
             out.append({"with": {k: show(v) for k, v in st[1].items()}, "body": describe(st[2]), "catch_here": st[3]})
+            if len(st) > 4 and st[4]:
+                out[-1]["entered"] = st[4].get("mode")
+                out[-1]["assigned_between_creation_and_entry"] = {k: show(v) for k, v in st[4].get("pre", [])}
         elif st[0] == "assign":
             out.append({"assign": st[1], "value": show(st[2])})
         else:
@@ -181,6 +197,30 @@ class Runner:
         ctx.hit("probe:Op.str")
         if got != exp:
             ctx.violation("Op.str does not follow the current decimals setting", {"decimals_expected": d}, exp, got)
+        third, v = 1.0 / 3.0, 0.375
+        forms = {
+            "numpy float64 scalar": (np.float64(third), f"{third:.{d}f}"),
+            "numpy float32 scalar": (np.float32(v), f"{v:.{d}f}"),
+            "0-d array": (np.array(third), f"{third:.{d}f}"),
+            "1-D array": (np.array([third, v]), f"{third:.{d}f} {v:.{d}f}"),
+            "list": ([third, v], f"{third:.{d}f} {v:.{d}f}"),
+            "tuple": ((v,), f"{v:.{d}f}"),
+            "2-D array": (np.array([[third, v], [v, third]]), f"{third:.{d}f} {v:.{d}f}\n{v:.{d}f} {third:.{d}f}"),
+            "2-D float32 array": (np.array([[v, 2.5]], dtype=np.float32), f"{v:.{d}f} {2.5:.{d}f}"),
+            "column array": (np.array([[third], [v]]), f"{third:.{d}f}\n{v:.{d}f}"),
+            "non-contiguous 2-D array": (np.array([[third, v], [v, third]]).T, f"{third:.{d}f} {v:.{d}f}\n{v:.{d}f} {third:.{d}f}"),
+        }
+        for form, (value, exp) in forms.items():
+            got = fl.Op.str(value)
+            ctx.hit("probe:Op.str:" + form)
+            if got != exp:
+                ctx.violation("Op.str does not follow the current decimals setting", {"decimals_expected": d, "form": form}, exp, got)
+        alias = model["alias"]
+        exp = {"": "fuzzylite.norm.Minimum()", "*": "Minimum()"}.get(alias, f"{alias}.Minimum()")
+        got = repr(fl.Minimum())
+        ctx.hit("probe:repr alias")
+        if got != exp:
+            ctx.violation("repr() does not follow the current alias setting", {"alias": alias}, exp, got)
         atol, rtol = model["atol"], model["rtol"]
         a, b = 1.0, 1.0 + 0.4
         exp_close = bool(abs(a - b) <= atol + rtol * abs(b))
@@ -200,15 +240,39 @@ class Runner:
     def execute(self, prog, model):
         for st in prog:
             if st[0] == "ctx":
-                _, kwargs, body, catch = st
-                saved = {k: model[k] for k in kwargs}
+                _, kwargs, body, catch = st[:4]
+                opt = st[4] if len(st) > 4 else {}
+                mode = opt.get("mode", "with")
+
+                def inside():
+                    # runs with the context entered; the values to come back are those held on entry
+                    model.update(kwargs)
+                    try:
+                        self.execute(body, model)
+                    finally:
+                        model.update(saved)
+
                 try:
-                    with self.s.context(**kwargs):
-                        model.update(kwargs)
-                        try:
-                            self.execute(body, model)
-                        finally:
-                            model.update(saved)
+                    cm = self.s.context(**kwargs)
+                    for k, v in opt.get("pre", []):
+                        setattr(self.s, k, v)
+                        model[k] = v
+                        self.ctx.hit("event:setting assigned between creation and entry of a context")
+                    saved = {k: model[k] for k in kwargs}
+                    self.ctx.hit("entered:" + mode)
+                    if mode in ("decorator", "decorator-twice"):
+                        decorated = cm(inside)
+                        decorated()
+                        if mode == "decorator-twice":
+                            self.probe_helpers(model)
+                            decorated()
+                    elif mode == "exitstack":
+                        with contextlib.ExitStack() as stack:
+                            stack.enter_context(cm)
+                            inside()
+                    else:
+                        with cm:
+                            inside()
                 except (Boom, Quit) as ex:
                     self.ctx.hit("exception_crossed_a_context" if isinstance(ex, Boom) else "base_exception_crossed_a_context")
                     if not catch:
@@ -252,7 +316,7 @@ def run(ctx):
     )
     ctx.assumptions += ["restored means identical object, or equal value of the same type for numbers and strings", "only vars(settings) is observed; loggers' own levels are not settings"]
     Settings = fl.library.Settings
-    with Reach({"Settings.context": Settings.__dict__["context"].__wrapped__, "Op.str": fl.Op.__dict__["str"], "Op.is_close": fl.Op.__dict__["is_close"]}) as reach, Probe() as probe:
+    with Reach({"Settings.context": getattr(Settings.__dict__["context"], "__wrapped__", Settings.__dict__["context"]), "Op.str": fl.Op.__dict__["str"], "Op.is_close": fl.Op.__dict__["is_close"]}) as reach, Probe() as probe:
         mon = SettingsMonitor(ctx, fl)
         mon.install(probe)
         runner = Runner(ctx, fl)
@@ -302,6 +366,7 @@ def run(ctx):
     ctx.exhaustive = True
     ctx.extra["exhaustive_space"] = "nesting depth 2 over all 28x28 single/double key subsets x 4 exception placements; 7x7 (named, assigned) pairs x {normal, exception}"
     ctx.require("hook:Settings.context", "event:enter", "event:exit:normal", "event:exit:exception", "exception_crossed_a_context", "assign:named", "assign:unnamed", "depth:2", "depth:3", "base_exception_crossed_a_context")
+    ctx.require("entered:prepared", "entered:exitstack", "entered:decorator", "event:context used as a decorator", "event:setting assigned between creation and entry of a context", "probe:Op.str:2-D array")
 
 
 def passive(ctx, fl, probe):
